@@ -24,6 +24,7 @@ RULE = ("One evaluation = one seeded execution: two real Managers + "
         "selected link was lost at least once while un-acked records were "
         "outstanding or at least 2 writes happened on one subchannel and a "
         "loss occurred. Distinct: event-log digests among non-trivial runs.")
+RULE += (' In 1/3 of runs listeners are registered late (after OPENs may have arrived).')
 LEVEL_TEXT = ("Seeded exploration. For every subchannel and direction the "
               "peer application's dataReceived sequence is a prefix of the "
               "writes (boundaries preserved, nothing twice) after every "
